@@ -291,3 +291,16 @@ SCENARIOS["C13"] = SCENARIOS.get("C13", []) + [
                  (2, r"f1=1", "the feed started through the closed handle (store still open) no longer receives its collection's writes")])
     for k in ("mem", "disk")
 ]
+
+
+# C16: looking a collection up through a handle whose cached object is stale must not end the feeds of the re-created collection
+SCENARIOS["C16"] = SCENARIOS["C16"] + [
+    dict(name="stale-collection-object-on-another-handle-vs-feed-on-the-recreated-collection", kind=k,
+         setup=["hopen h1", "mkcoll c2 via=h0", "dropcoll c2 via=h1", "mkcoll c2 via=h1", "feed f0 c2 via=h1 bf=none", "mkcoll c2 via=h0"],
+         threads={}, script=[],
+         observe=["lifestate", "probe c2 via=h1", "probe c2 via=h0"],
+         expect=[(0, r"f0=0 afterdone=0", "a collection lookup through another handle ended the feed"),
+                 (1, r"f0=1", "the feed no longer receives writes made through the handle that started it"),
+                 (2, r"f0=1", "the feed does not receive writes made through the other handle")])
+    for k in ("mem", "disk")
+]
